@@ -334,6 +334,33 @@ def g_dfs(ck: Check, rule: str) -> None:
                 ck.ob(rule, fm, n, False, "`break` leaves unprocessed frames on the stack")
 
 
+def _trap_list_is_local(prog, fm: FuncModel, tl, g) -> bool:
+    """The trap list the loop ranges over was computed for the very node that receives the edges (trappist on the node's own
+    percolated net, as in skip_to_minimal): then every element lies inside the node and no subspace test is needed."""
+    it = tl.iter
+    at = fm.cfg.loop_header[tl]
+    for _ in range(6):
+        if isinstance(it, ast.Name):
+            vd = fm.value_defs(it.id, at)
+            if len(vd) != 1 or vd[0][1] is None:
+                return False
+            at, it = vd[0]
+            continue
+        if isinstance(it, (ast.ListComp, ast.GeneratorExp)) and len(it.generators) == 1:
+            it = it.generators[0].iter
+            continue
+        if isinstance(it, ast.Call) and callee_name(it) in ("sorted", "list", "tuple", "enumerate") and it.args:
+            it = it.args[0]
+            continue
+        break
+    if isinstance(it, ast.Call) and callee_name(it) == "trappist":
+        net = call_arg(it, 0, "network")
+        d = fm.deref(net, at) if isinstance(net, ast.Name) else net
+        return isinstance(d, ast.Call) and callee_name(d) == "node_percolated_petri_net" and bool(d.args) \
+            and isinstance(g.parent_expr, ast.Name) and text(d.args[0]) == g.parent_expr.id
+    return False
+
+
 def _reachable_in_round(fm: FuncModel, loop, target) -> bool:
     """target is reachable from the loop header along edges whose constant tests are respected (`if True:` has no false edge)"""
     def const(e):
@@ -940,6 +967,10 @@ def skip_edges(ck: Check, rule: str) -> None:
                         n_.id = n_.id[1:]
                 pc = logic.And(pc, logic.Translator(lambda e_: text(e_)).f(c2))
             ats = [a for a in logic.atoms(pc)]
+            if not ats and not (isinstance(g.parent_expr, ast.Constant) and g.parent_expr.value is None) \
+                    and not _trap_list_is_local(prog, fm, tl, g):
+                probs.append("the edge to a minimal trap space is created unconditionally: minimal trap spaces of the whole network, "
+                             "also those outside the node, become its successors")
             if ats:
                 par_space = None
                 want = None
